@@ -679,7 +679,15 @@ class State:
         if stop > MAX_MEMORY_SIZE:
             raise OutOfGasError(f"memory read {loc=} {size=} > MAX_MEMORY_SIZE")
 
+        self.mexpand(stop)
         return self.memory.slice(start=loc, stop=stop)
+
+    def mexpand(self, stop: int) -> None:
+        """EVM memory expansion: accessing memory beyond its current size grows it with zeros (observable via MSIZE)."""
+
+        size = len(self.memory)
+        if stop > size:
+            self.memory.set_slice(start=size, stop=stop, value=ByteVec(bytes(stop - size)))
 
     def set_mslice(self, loc: int, data: ByteVec) -> None:
         """Wraps a memory slice write with a size check."""
@@ -3252,6 +3260,7 @@ class SEVM:
 
                 elif opcode == OP_MLOAD:
                     loc: int = ex.mloc(check_size=True)
+                    state.mexpand(loc + 32)
                     state.push_any(state.memory.get_word(loc))
 
                 elif opcode == OP_PUSH0:
